@@ -1,0 +1,25 @@
+//go:build verif
+
+package cronschedule
+
+import (
+	"time"
+
+	configv1alpha1 "github.com/furiko-io/furiko/apis/config/v1alpha1"
+	execution "github.com/furiko-io/furiko/apis/execution/v1alpha1"
+)
+
+// VerifDump exposes the heap array and name index (read-only) to the verification
+// harness in /verif.
+func (s *Schedule) VerifDump() (names []string, priorities []int, index map[string]int) {
+	return s.jobConfigs.VerifDump()
+}
+
+// VerifGetInitialTimeForScheduling exposes getInitialTimeForScheduling.
+func VerifGetInitialTimeForScheduling(
+	jobConfig *execution.JobConfig,
+	cfg *configv1alpha1.CronExecutionConfig,
+	fromTime, now time.Time,
+) time.Time {
+	return getInitialTimeForScheduling(jobConfig, cfg, fromTime, now)
+}
